@@ -76,7 +76,7 @@ def is_array1d_equiv(a):
     else:
         try:
             a = np.asarray(a)
-            res = a.ndim == 1 and ((a[0] is str) or isscalar(a[0]))
+            res = a.ndim == 1 and (a.size == 0 or (a[0] is str) or isscalar(a[0]))
         except:
             res = False
     return res
